@@ -677,6 +677,9 @@ fn try_normalize_logic_constraint(
             exp: exp.clone(),
             requirement: LogicRequirement::MustBeFalse,
         }),
+        // a logic value whose evaluation may fail is not decided from the constant alone:
+        // the generic path lowers it, which is what reports the error
+        (true, true) | (false, false) if exp.may_be_undefined() => None,
         (true, true) => Some(NormalizedLogicConstraint::Tautology),
         (false, false) => Some(NormalizedLogicConstraint::Contradiction),
     }
